@@ -20,8 +20,11 @@ use std::sync::Arc;
 pub struct CliOptions;
 
 fn ulp_eq(a: f64, b: f64) -> bool {
-    // equal up to the last place (serde_json's number parser may be off by one ulp)
-    a == b || (a - b).abs() <= 4.0 * f64::EPSILON * a.abs().max(b.abs()).max(f64::MIN_POSITIVE)
+    // equal up to the last few places: serde_json's number parser may be off by one ulp, and with
+    // the default clip threshold (0) the binary may legitimately print the re-normalised copy of
+    // the library's profile (each probability divided by an infoset total of 1 +- a few ulp)
+    // when rounding happens to make its regret a shade lower
+    a == b || (a - b).abs() <= 64.0 * f64::EPSILON * a.abs().max(b.abs()).max(f64::MIN_POSITIVE)
 }
 
 fn profiles_ulp_equal(a: &Profile, b: &Profile) -> bool {
